@@ -172,6 +172,11 @@ func (e *Event) Fields(fields interface{}) *Event {
 // Use zerolog.Dict() to create the dictionary.
 func (e *Event) Dict(key string, dict *Event) *Event {
 	if e == nil {
+		// The event is disabled: recycle the unused dict instead of leaking it
+		// from the pool.
+		if dict != nil {
+			putEvent(dict)
+		}
 		return e
 	}
 	dict.buf = enc.AppendEndMarker(dict.buf)
@@ -192,6 +197,11 @@ func Dict() *Event {
 // implement the LogArrayMarshaler interface.
 func (e *Event) Array(key string, arr LogArrayMarshaler) *Event {
 	if e == nil {
+		// The event is disabled: recycle an unused Arr() instead of leaking it
+		// from the pool.
+		if a, ok := arr.(*Array); ok && a != nil {
+			putArray(a)
+		}
 		return e
 	}
 	e.buf = enc.AppendKey(e.buf, key)
